@@ -102,6 +102,208 @@ func declSrc(f *ast.File, name string) string {
 	return ""
 }
 
+// ---- a small evaluator for boolean / integer Go expressions over service flags, used to read OnVersion's
+// service test by its TRUTH TABLE instead of its spelling.
+
+var wireFlags = map[string]int64{
+	"wire.SFNodeNetwork": 1, "wire.SFNodeGetUTXO": 2, "wire.SFNodeBloom": 4, "wire.SFNodeWitness": 8,
+	"wire.SFNodeXthin": 16, "wire.SFNodeBit5": 32, "wire.SFNodeCF": 64, "wire.SFNode2X": 128,
+	"wire.SFNodeNetworkLimited": 1024,
+}
+
+type evalEnv struct {
+	defs     map[string]ast.Expr // local `x := e`, `var x = e`, `const x = e`
+	services int64               // what sp.Services() returns
+	depth    int
+}
+
+// localDefs collects the single-valued local definitions of a function body.
+func localDefs(body *ast.BlockStmt) map[string]ast.Expr {
+	defs := map[string]ast.Expr{}
+	ast.Inspect(body, func(x ast.Node) bool {
+		switch v := x.(type) {
+		case *ast.AssignStmt:
+			if v.Tok == token.DEFINE && len(v.Lhs) == 1 && len(v.Rhs) == 1 {
+				if id, ok := v.Lhs[0].(*ast.Ident); ok {
+					defs[id.Name] = v.Rhs[0]
+				}
+			}
+		case *ast.ValueSpec:
+			for i, n := range v.Names {
+				if i < len(v.Values) {
+					defs[n.Name] = v.Values[i]
+				}
+			}
+		}
+		return true
+	})
+	return defs
+}
+
+// eval returns int64 or bool, or nil when the expression uses something it does not know.
+func (e *evalEnv) eval(x ast.Expr) any {
+	if e.depth > 40 {
+		return nil
+	}
+	e.depth++
+	defer func() { e.depth-- }()
+	switch v := x.(type) {
+	case *ast.ParenExpr:
+		return e.eval(v.X)
+	case *ast.BasicLit:
+		if n, err := strconv.ParseInt(v.Value, 0, 64); err == nil {
+			return n
+		}
+	case *ast.Ident:
+		switch v.Name {
+		case "true":
+			return true
+		case "false":
+			return false
+		}
+		if d, ok := e.defs[v.Name]; ok {
+			return e.eval(d)
+		}
+	case *ast.SelectorExpr:
+		if n, ok := wireFlags[squeeze(src(v))]; ok {
+			return n
+		}
+	case *ast.CallExpr:
+		f := squeeze(src(v.Fun))
+		if strings.HasSuffix(f, ".Services") && len(v.Args) == 0 {
+			return e.services
+		}
+		// conversions such as wire.ServiceFlag(x), uint64(x)
+		if len(v.Args) == 1 && (f == "wire.ServiceFlag" || f == "uint64" || f == "int64") {
+			return e.eval(v.Args[0])
+		}
+	case *ast.UnaryExpr:
+		a := e.eval(v.X)
+		if b, ok := a.(bool); ok && v.Op == token.NOT {
+			return !b
+		}
+		if n, ok := a.(int64); ok && v.Op == token.XOR {
+			return ^n
+		}
+	case *ast.BinaryExpr:
+		a, b := e.eval(v.X), e.eval(v.Y)
+		if x, ok := a.(int64); ok {
+			if y, ok := b.(int64); ok {
+				switch v.Op {
+				case token.AND:
+					return x & y
+				case token.OR:
+					return x | y
+				case token.AND_NOT:
+					return x &^ y
+				case token.XOR:
+					return x ^ y
+				case token.EQL:
+					return x == y
+				case token.NEQ:
+					return x != y
+				}
+			}
+		}
+		if x, ok := a.(bool); ok {
+			if y, ok := b.(bool); ok {
+				switch v.Op {
+				case token.LAND:
+					return x && y
+				case token.LOR:
+					return x || y
+				case token.EQL:
+					return x == y
+				case token.NEQ:
+					return x != y
+				}
+			}
+		}
+	}
+	return nil
+}
+
+// resolvesTo: e is the expression `want` (squeezed), or a local identifier defined as it.
+func resolvesTo(defs map[string]ast.Expr, e ast.Expr, want string) bool {
+	if squeeze(src(e)) == want {
+		return true
+	}
+	if id, ok := e.(*ast.Ident); ok {
+		if d, ok := defs[id.Name]; ok {
+			return squeeze(src(d)) == want
+		}
+	}
+	return false
+}
+
+// goBody: the body run by `defer func() { … go <f> … }()` in fd — f's literal body, or the body of the
+// same-file helper it names (one level) — together with the defer statement.  nil when there is no such shape.
+func goBody(f *ast.File, fd *ast.FuncDecl) (*ast.BlockStmt, *ast.DeferStmt) {
+	for _, st := range fd.Body.List {
+		ds, ok := st.(*ast.DeferStmt)
+		if !ok {
+			continue
+		}
+		var scope ast.Node = ds.Call
+		var found *ast.BlockStmt
+		ast.Inspect(scope, func(x ast.Node) bool {
+			g, ok := x.(*ast.GoStmt)
+			if !ok || found != nil {
+				return true
+			}
+			switch fn := g.Call.Fun.(type) {
+			case *ast.FuncLit:
+				found = fn.Body
+			default:
+				name := squeeze(src(fn))
+				if i := strings.LastIndex(name, "."); i >= 0 {
+					name = name[i+1:]
+				}
+				var cands []*ast.FuncDecl
+				for _, d := range f.Decls {
+					if h, ok := d.(*ast.FuncDecl); ok && h.Name.Name == name && h.Body != nil {
+						cands = append(cands, h)
+					}
+				}
+				if len(cands) == 1 {
+					h := cands[0]
+					// rename the helper's parameters to the argument texts (identifiers only)
+					if h.Type.Params != nil {
+						k := 0
+						ren := map[string]string{}
+						for _, fld := range h.Type.Params.List {
+							for _, pn := range fld.Names {
+								if k < len(g.Call.Args) {
+									if a, ok := g.Call.Args[k].(*ast.Ident); ok && a.Name != pn.Name {
+										ren[pn.Name] = a.Name
+									}
+								}
+								k++
+							}
+						}
+						if len(ren) > 0 {
+							ast.Inspect(h.Body, func(y ast.Node) bool {
+								if id, ok := y.(*ast.Ident); ok {
+									if to, ok := ren[id.Name]; ok {
+										id.Name = to
+									}
+								}
+								return true
+							})
+						}
+					}
+					found = h.Body
+				}
+			}
+			return true
+		})
+		if found != nil {
+			return found, ds
+		}
+	}
+	return nil, nil
+}
+
 // extractBan records the facts the C13 model relies on:
 //   - banman: key layout constants, default masks, the expiry is stored as Unix seconds of an absolute time, Status
 //     deletes when !now.Before(expiry), the key is built from the To4 / To16 normal form;
@@ -246,28 +448,36 @@ func extractBan() {
 		fail("neutrino.go: method ServerPeer.OnVersion")
 	} else {
 		found := false
-		var flags []string
+		defs := localDefs(fd.Body)
 		for _, is := range ifStmts(fd.Body) {
-			cond := squeeze(src(is.Cond))
-			if !hasCall(is.Body, "sp.server.BanPeer") {
+			var ban *ast.CallExpr
+			ast.Inspect(is.Body, func(x ast.Node) bool {
+				if ce, ok := x.(*ast.CallExpr); ok && squeeze(src(ce.Fun)) == "sp.server.BanPeer" && ban == nil {
+					ban = ce
+				}
+				return true
+			})
+			if ban == nil {
 				continue
 			}
 			found = true
-			put("onVersionServiceTest", cond == "peerServices&wire.SFNodeWitness!=wire.SFNodeWitness||peerServices&wire.SFNodeCF!=wire.SFNodeCF" &&
-				strings.Contains(squeeze(src(fd.Body)), "peerServices:=sp.Services()"),
-				"OnVersion tests the peer's service bits for WITNESS and CF")
-			for _, fl := range []string{"wire.SFNodeWitness", "wire.SFNodeCF"} {
-				if strings.Contains(cond, fl) {
-					flags = append(flags, fl)
+			// the truth table of the test over {neither, WITNESS only, CF only, both} (NETWORK always offered):
+			// whatever its spelling, the peer is rejected iff it does not offer both
+			var table []string
+			for _, sv := range []int64{1, 1 | 8, 1 | 64, 1 | 8 | 64} {
+				r := (&evalEnv{defs: defs, services: sv}).eval(is.Cond)
+				switch v := r.(type) {
+				case bool:
+					table = append(table, lbool(v))
+				default:
+					table = append(table, "unknown")
 				}
 			}
-			banArgs := ""
-			for _, c := range calls(is.Body) {
-				if c.name == "sp.server.BanPeer" {
-					banArgs = squeeze(strings.Join(c.args, ","))
-				}
-			}
-			put("onVersionBans", banArgs == "peerAddr,banman.NoCompactFilters" && strings.Contains(squeeze(src(is.Body)), "peerAddr:=sp.Addr()"),
+			l.def("onVersionRejects", "List String", lstrs(table),
+				"does OnVersion's service test reject a peer offering NETWORK plus: nothing, WITNESS, CF, WITNESS|CF")
+			shape["onVersionRejects"] = table
+			put("onVersionBans", len(ban.Args) == 2 && resolvesTo(defs, ban.Args[0], "sp.Addr()") &&
+				squeeze(src(ban.Args[1])) == "banman.NoCompactFilters",
 				"under that test OnVersion calls BanPeer(sp.Addr(), NoCompactFilters)")
 			put("onVersionDisconnects", hasCall(is.Body, "sp.Disconnect") && callPos(is.Body, "sp.Disconnect") > callPos(is.Body, "sp.server.BanPeer") && endsWithReturn(is.Body),
 				"and then disconnects the peer and returns")
@@ -276,39 +486,43 @@ func extractBan() {
 		if !found {
 			fail("neutrino.go: OnVersion: if-statement calling sp.server.BanPeer")
 		}
-		l.def("requiredServiceFlags", "List String", lstrs(flags), "service flags OnVersion insists on")
-		shape["requiredServiceFlags"] = flags
 	}
 
 	if fd := funcDecl(nf, "ChainService", "handleAddPeerMsg"); fd == nil {
 		fail("neutrino.go: method ChainService.handleAddPeerMsg")
 	} else {
+		// what the proofs need: a top-level `if s.IsBanned(sp.Addr()) { …sp.Disconnect()…; return false }` that
+		// precedes every use of the peer state (`state.…`: counting, recording, group bookkeeping), however
+		// the recording itself is written
 		ok := false
-		var guardPos token.Pos
-		for _, is := range ifStmts(fd.Body) {
-			if squeeze(src(is.Cond)) == "s.IsBanned(sp.Addr())" && hasCall(is.Body, "sp.Disconnect") && endsWithReturn(is.Body) {
-				ok, guardPos = true, is.Pos()
+		var guardEnd token.Pos
+		for _, st := range fd.Body.List {
+			is, isIf := st.(*ast.IfStmt)
+			if !isIf || is.Init != nil || is.Else != nil {
+				continue
+			}
+			if squeeze(src(is.Cond)) != "s.IsBanned(sp.Addr())" || !hasCall(is.Body, "sp.Disconnect") || len(is.Body.List) == 0 {
+				continue
+			}
+			if rs, isRet := is.Body.List[len(is.Body.List)-1].(*ast.ReturnStmt); isRet && len(rs.Results) == 1 && squeeze(src(rs.Results[0])) == "false" {
+				ok, guardEnd = true, is.End()
 				break
 			}
 		}
-		// every statement that records the peer comes after the guard
-		body := src(fd.Body)
-		_ = body
-		adds := 0
+		uses := 0
 		ast.Inspect(fd.Body, func(x ast.Node) bool {
-			if as, isAs := x.(*ast.AssignStmt); isAs && len(as.Lhs) == 1 {
-				lhs := squeeze(src(as.Lhs[0]))
-				if strings.HasPrefix(lhs, "state.persistentPeers[") || strings.HasPrefix(lhs, "state.outboundPeers[") {
-					adds++
-					if !ok || as.Pos() < guardPos {
+			if se, isSel := x.(*ast.SelectorExpr); isSel {
+				if id, isId := se.X.(*ast.Ident); isId && id.Name == "state" {
+					uses++
+					if se.Pos() < guardEnd || !ok {
 						ok = false
 					}
 				}
 			}
 			return true
 		})
-		put("addPeerRefusesBanned", ok && adds == 2,
-			"handleAddPeerMsg: `if s.IsBanned(sp.Addr()) { sp.Disconnect(); return false }` precedes both places that record the peer")
+		put("addPeerRefusesBanned", ok && uses > 0,
+			"handleAddPeerMsg: a top-level `if s.IsBanned(sp.Addr()) { sp.Disconnect(); return false }` precedes every use of the peer state")
 	}
 
 	if fd := funcDecl(nf, "ChainService", "outboundPeerConnected"); fd == nil {
@@ -375,11 +589,31 @@ func extractBan() {
 		put("banPeerUsesStore", strings.Contains(body, "ipNet,err:=banman.ParseIPNet(addr,nil)") &&
 			strings.HasSuffix(body, "returns.banStore.BanIPNet(ipNet,reason,BanDuration)}"),
 			"BanPeer = banStore.BanIPNet(ParseIPNet(addr, nil), reason, BanDuration)")
-		put("banPeerDisconnects", strings.Contains(body, "deferfunc(){") && strings.Contains(body, "ifsp:=s.PeerByAddr(addr);sp!=nil{sp.Disconnect()}"),
-			"BanPeer's deferred function disconnects PeerByAddr(addr)")
-		put("banPeerDisconnectsNetwork", strings.Contains(body, "deferfunc(){") &&
-			strings.Contains(body, "banned,err:=banman.ParseIPNet(addr,nil)iferr!=nil{return}") &&
-			strings.Contains(body, "for_,sp:=ranges.Peers(){peerNet,err:=banman.ParseIPNet(sp.Addr(),nil)iferr!=nil{continue}ifpeerNet.String()==banned.String(){sp.Disconnect()}}"),
+		// the disconnects run in a goroutine started from a deferred function (so on every return path, the parse
+		// error included): the goroutine's body is a literal or a same-file helper
+		gb, ds := goBody(nf, fd)
+		gbody := ""
+		deferFirst := false
+		if gb != nil {
+			gbody = squeeze(src(gb))
+			deferFirst = true
+			ast.Inspect(fd.Body, func(x ast.Node) bool {
+				if _, isLit := x.(*ast.FuncLit); isLit {
+					return false // returns of nested functions are not returns of BanPeer
+				}
+				if rs, isRet := x.(*ast.ReturnStmt); isRet && rs.Pos() < ds.Pos() {
+					deferFirst = false
+				}
+				return true
+			})
+		}
+		put("banPeerDeferBeforeReturns", deferFirst,
+			"BanPeer installs its deferred disconnect (defer func() { go … }()) before any return statement")
+		put("banPeerDisconnects", strings.Contains(gbody, "ifsp:=s.PeerByAddr(addr);sp!=nil{sp.Disconnect()}"),
+			"the goroutine disconnects PeerByAddr(addr)")
+		put("banPeerDisconnectsNetwork",
+			strings.Contains(gbody, "banned,err:=banman.ParseIPNet(addr,nil)iferr!=nil{return}") &&
+				strings.Contains(gbody, "for_,sp:=ranges.Peers(){peerNet,err:=banman.ParseIPNet(sp.Addr(),nil)iferr!=nil{continue}ifpeerNet.String()==banned.String(){sp.Disconnect()}}"),
 			"and then every peer of s.Peers() whose address parses to the banned network (ParseIPNet(sp.Addr(), nil).String() == ParseIPNet(addr, nil).String())")
 	}
 	// BanPeer call sites outside neutrino.go: the SET of (file, reason) pairs (a call moved into a helper of the
